@@ -401,28 +401,34 @@ class CreatorAction:
 
 
 class SenseCallback:
-    def __init__(self, hub, n):
+    def __init__(self, hub, n, key=None):
         self.hub = hub
         self.n = n
+        self.key = key        # the harness's own name for the sensor (asset names need not be unique)
 
     def __call__(self, sensor, time, values):
         import copy
         lens = sorted(set(len(v) for v in sensor.data.values()))
         if len(lens) > 1:
             # inside the callback the stored series must already be aligned (same length for every probe and the time)
-            self.hub.tlog.append(('series_misaligned', sensor.name, time, {str(k if isinstance(k, str) else 'probe'): len(v)
-                                                                             for k, v in sensor.data.items()}))
-        self.hub.tlog.append(('sense_cb', sensor.name, self.n, time, copy.deepcopy(values)))
+            self.hub.tlog.append(('series_misaligned', self.key or sensor.name, time,
+                                  {str(k if isinstance(k, str) else 'probe'): len(v) for k, v in sensor.data.items()}))
+        self.hub.tlog.append(('sense_cb', self.key or sensor.name, self.n, time, copy.deepcopy(values)))
 
 
 class HCms(Cms):
-    def __init__(self, *a, hub=None, **kw):
+    def __init__(self, *a, hub=None, devs=None, **kw):
         self.hub = hub
+        self.devs = devs
         super().__init__(*a, **kw)
 
     def on_sense(self, sensor, time, data):
         import copy
-        self.hub.tlog.append(('cms', self.name, sensor.name, time, copy.deepcopy(data)))
+        key = sensor.name
+        for k, v in (self.devs or {}).items():
+            if v is sensor:
+                key = k
+        self.hub.tlog.append(('cms', self.name, key, time, copy.deepcopy(data)))
 
 
 class OpAction:
@@ -641,17 +647,17 @@ class LineWorld:
             cap = INF if cap is None else cap
             if k == 'psensor':
                 probes = [AttributeProbe(attr, self.dev[tgt]) for tgt, attr in d['probes']]
-                o = PeriodicSensor(d['interval'], probes, name, cap)
+                o = PeriodicSensor(d['interval'], probes, d.get('asset_name', name), cap)
             else:
                 # the placeholder target of a part probe is replaced by the finished part at every measurement
                 ph = self.dev[d['processor']] if d.get('placeholder') == 'processor' else None
                 probes = [AttributeProbe(attr, ph) for attr in d['probes']]
                 o = OutputPartSensor(self.dev[d['processor']], probes, d.get('sensing_interval', 0), name, cap)
             for n in range(d.get('callbacks', 1)):
-                o.add_on_sense_callback(SenseCallback(self.hub, n))
+                o.add_on_sense_callback(SenseCallback(self.hub, n, name))
             return o
         if k == 'cms':
-            o = HCms(self.maintainer, name, hub=self.hub)
+            o = HCms(self.maintainer, name, hub=self.hub, devs=self.dev)
             for sname in d.get('sensors', []):          # a name listed twice = add_sensor called twice
                 o.add_sensor(self.dev[sname])
             return o
